@@ -203,7 +203,8 @@ _module_state0 = None
 
 def fresh_process_state():
     """Every session of the model starts in a fresh interpreter process: module-level containers of the package
-    (dict / list / set globals of inline_snapshot.*) get the contents they had when the harness was loaded.  Without
+    (dict / list / set globals of inline_snapshot.*) get the contents they had when the harness was loaded, and
+    module-level scalars (bool / int / float / str / None flags such as _compare_context._eq_check_only) their values.  Without
     this, state that a path (or an earlier session of the same path) leaves in a module would reach the next one,
     which no real run can do - a counterexample found that way would not replay."""
     global _module_state0
@@ -215,9 +216,14 @@ def fresh_process_state():
                     for k, v in list(vars(mod).items()):
                         if not k.startswith("__") and type(v) in (dict, list, set):
                             _module_state0.append((mod, k, v, type(v)(v)))
+                        elif not k.startswith("__") and type(v) in (bool, int, float, str, type(None)):
+                            _module_state0.append((mod, k, None, v))  # scalar flag / counter: rebound, not mutated
             return
         for mod, k, obj, initial in _module_state0:
-            if type(obj) is list:
+            if obj is None:
+                if vars(mod).get(k, initial) is not initial:
+                    setattr(mod, k, initial)
+            elif type(obj) is list:
                 obj[:] = initial
             else:
                 obj.clear()
